@@ -384,8 +384,58 @@ class Report:
     def known(self, fid, n=1):
         self.known_hits[fid] = self.known_hits.get(fid, 0) + n
 
+    def witnesses(self):
+        """Regression / finding witnesses: every corpus/<prop>/*.rs whose first line is
+        `// witness: expect=ok stdout=<text>` (must compile against the current macro and print exactly that: the
+        minimized inputs of repaired defects) or `// witness: expect=finding id=<F-..>` (an open finding: counted as
+        known while it still fails, silently fine once it passes)."""
+        d = os.path.join(VERIF, "corpus", self.prop)
+        files = sorted(f for f in (os.listdir(d) if os.path.isdir(d) else []) if f.endswith(".rs"))
+        todo = []
+        for f in files:
+            first = open(os.path.join(d, f), encoding="utf-8").readline().strip()
+            if first.startswith("// witness:"):
+                kv = dict(x.split("=", 1) for x in first[len("// witness:"):].split() if "=" in x)
+                todo.append((f, kv))
+        if not todo:
+            return
+        try:
+            so = build_macro()
+        except BuildError as e:
+            self.broken.append(str(e)[:2000])
+            return
+        import tempfile
+        known = {f["id"] for f in findings_for(self.prop)}
+        with tempfile.TemporaryDirectory(prefix="verif-wit-") as tmp:
+            for f, kv in todo:
+                src = os.path.join(d, f)
+                exe = os.path.join(tmp, f[:-3])
+                r = subprocess.run(["rustc", "--edition", "2024", "-A", "warnings", "--extern", f"disjoint_impls={so}",
+                                    "-L", os.path.dirname(so), src, "-o", exe], capture_output=True, text=True)
+                out = None
+                if r.returncode == 0:
+                    rr = subprocess.run([exe], capture_output=True, text=True, timeout=60)
+                    out = rr.stdout.strip().replace("\n", "|") if rr.returncode == 0 else f"<exit {rr.returncode}>"
+                self.count("witness:" + kv.get("expect", "?"))
+                self.case(("witness", f))
+                if kv.get("expect") == "ok":
+                    want = kv.get("stdout", "").replace("_", " ")
+                    if out != want:
+                        self.oracle_failures.append({"clause": "regression witness of a repaired defect no longer behaves as repaired",
+                                                     "witness": "corpus/%s/%s" % (self.prop, f), "expected_stdout": want, "got_stdout": out,
+                                                     "compiler_errors": [l for l in r.stderr.splitlines() if l.startswith("error")][:5]})
+                elif kv.get("expect") == "finding":
+                    if out is None or out != kv.get("stdout", out).replace("_", " "):
+                        if kv.get("id") in known:
+                            self.known(kv["id"])
+                        else:
+                            self.oracle_failures.append({"clause": "witness of a finding that is not listed", "witness": f})
+
     def finish(self, level=None, assumptions=None, checker_cmd=None):
         prop = self.prop
+        if not getattr(self, "_witnessed", False):
+            self._witnessed = True
+            self.witnesses()
         if level is None:
             try:
                 level = json.load(open(os.path.join(VERIF, "harness", "built.json")))[prop].get("category", "proof")
